@@ -89,9 +89,11 @@ Proof. split; (split; [adm|runs]). Qed.
 (* ---- F-13: ~TcpClient on a foreign thread, cut at its mutex acquisitions *)
 Definition w_f13a : list op := [EnableRetry; Connect; EvWritable 0 false; RunPending; XDestroyRead; Down; XDestroyRest].
 Definition w_f13b : list op := [Connect; EvWritable 0 false; RunPending; XDestroyRead; XDestroyRest; Down].
+Definition w_f13c : list op := [Connect; XDestroyInWrite].
 Lemma foreign_destroy_refuted :
-  (text_admissible init w_f13a /\ run init w_f13a = None) /\ (text_admissible init w_f13b /\ run init w_f13b = None).
-Proof. split; (split; [adm|runs]). Qed.
+  (text_admissible init w_f13a /\ run init w_f13a = None) /\ (text_admissible init w_f13b /\ run init w_f13b = None) /\
+  (text_admissible init w_f13c /\ run init w_f13c = None).
+Proof. split; [|split]; (split; [adm|runs]). Qed.
 
 (* ---- the environment contract `timely` is needed *)
 Lemma stalled_loop_refuted :
@@ -249,6 +251,7 @@ Proof.
   - destruct (_ || _); auto. apply evall_ret.
   - destruct (_ || _); auto. apply evall_ret.
   - destruct (_ || _); auto. destruct (connection _); [apply conn_shutdown_ev|apply evall_ret].
+  - discriminate.
   - discriminate.
   - discriminate.
   - apply evall_ret.
